@@ -200,6 +200,32 @@ def search(ctx):
                     scratch = [a for a in ("_model", "_parameters", "_data", "_guess_lnpriors") if hasattr(strat2, a)]
                     if scratch:
                         ctx.violation("C13:strategy-state:%s" % sname, "strategy still holds scratch attributes %r after fit" % scratch, info2)
+                    # --- the strategy object is reusable on ANOTHER model and data set: nothing of the fits it has done (bounds,
+                    #     scale factors, optimiser options) may leak into the next one
+                    if i % 2 == 1 or ctx.tier != "quick":
+                        detB, dataB, truthB, thB = make_problem(rng, lens=lens, npix=16 if lens else 20, origin=origin)
+                        # generating values of B outside model2's bounds in the optimiser's scaled units is what a leaked box would clip
+                        truthB = dict(truthB, r=float(rng.uniform(0.42, 0.5)), z=float(rng.uniform(9.5, 11.5)))
+                        dataB = calc_holo(detB, Sphere(n=1.59, r=truthB['r'], center=(truthB['x'], truthB['y'], truthB['z'])), theory=thB, scaling=truthB['alpha'], **OPT)
+                        startB = {k: v * float(rng.choice([0.93, 0.95, 1.05, 1.07])) for k, v in truthB.items()}
+                        startB['x'], startB['y'] = truthB['x'] + float(rng.uniform(-0.08, 0.08)), truthB['y'] + float(rng.uniform(-0.08, 0.08))
+                        # first a model with TIGHT bounds around its own solution (a refinement step), on the first data set
+                        scA = Sphere(n=1.59, r=Uniform(truth['r'] * 0.98, truth['r'] * 1.02, guess=truth['r'] * 1.005),
+                                     center=[Uniform(truth['x'] - 0.05, truth['x'] + 0.05, guess=truth['x'] + 0.01), Uniform(truth['y'] - 0.05, truth['y'] + 0.05, guess=truth['y'] - 0.01),
+                                             Uniform(truth['z'] * 0.98, truth['z'] * 1.02, guess=truth['z'] * 1.004)])
+                        strat2 = S()
+                        hp.fit(data, AlphaModel(scA, alpha=Uniform(truth['alpha'] * 0.97, min(1.0, truth['alpha'] * 1.03), guess=truth['alpha'] * 0.99), noise_sd=0.05, theory=th, **OPT), strategy=strat2)
+
+                        def modelB():
+                            scB = Sphere(n=1.59, r=Gaussian(startB['r'], 0.2), center=[Gaussian(startB['x'], 0.5), Gaussian(startB['y'], 0.5), Gaussian(startB['z'], 2.0)])
+                            return AlphaModel(scB, alpha=Gaussian(startB['alpha'], 0.2), noise_sd=0.05, theory=th, **OPT)
+                        ctx.tried("strategy-reused-on-another-model", (sname, lens, i))
+                        r_reused = hp.fit(dataB, modelB(), strategy=strat2)
+                        r_fresh = hp.fit(dataB, modelB(), strategy=S())
+                        gr, gf = [r_reused.parameters[nm] for nm in names], [r_fresh.parameters[nm] for nm in names]
+                        if not (max(abs(a - b) for a, b in zip(gr, gf)) <= 1e-7):
+                            ctx.violation("C13:strategy-reuse:%s" % sname, "a strategy object that has fitted a bounded model gives %r for another (unbounded) model and data set, a fresh strategy %r (generating values %r)" % (
+                                gr, gf, [truthB['r'], truthB['x'], truthB['y'], truthB['z'], truthB['alpha']]), dict(info2, truthB=truthB, startB=startB))
                     # --- pixel subset
                     if i % 2 == 0:
                         ctx.tried("subset", (sname, i))
